@@ -34,3 +34,12 @@ Proof.
   - destruct (n_create parent nm t) as [q|] eqn:C; [|discriminate H]. injection H as <- <- <-. exact (K _ _ C).
 Qed.
 Print Assumptions n_add_new_setting.
+Theorem n_add_invalid_name_refused ov parent n tcode :
+  s_ty parent = TGroup -> validate_name n = false -> n_add ov parent (Some n) tcode = None.
+Proof.
+  intros Hg Hn. unfold n_add. destruct (ty_of_code tcode) as [t|]; [|reflexivity]. cbv zeta. rewrite Hg.
+  cbn. rewrite Hn. reflexivity.
+Qed.
+Example empty_name_invalid : validate_name [] = false /\ validate_name [49; 97]%Z = false /\ validate_name [97; 32]%Z = false /\ validate_name [97; 45; 42; 95; 57]%Z = true.
+Proof. vm_compute. auto. Qed.
+Print Assumptions n_add_invalid_name_refused.
